@@ -188,6 +188,69 @@ def extract(units=None, variant='A', workdir=None, keep=False):
 # ---------------------------------------------------------------------------
 # program model
 
+# With DBUS_DISABLE_ASSERT dbus-string.h turns a few accessors into macros over the
+# private fields of DBusString.  They are folded back into (pseudo) calls so that rules see
+# the same program shape in every configuration variant.
+_PSEUDO_NEXT = [1000000]
+
+
+def _pseudo_call(name, args, line):
+    _PSEUDO_NEXT[0] += 1
+    return {'k': 'call', 'callee': name, 'args': args, 'id': _PSEUDO_NEXT[0], 'line': line, 't': 'int',
+            'pseudo': True}
+
+
+def _fold_string_macros(e, line, found):
+    """Rewrite in place; returns the (possibly new) node."""
+    if isinstance(e, list):
+        for i, x in enumerate(e):
+            e[i] = _fold_string_macros(x, line, found)
+        return e
+    if not isinstance(e, dict):
+        return e
+    for k, v in list(e.items()):
+        if isinstance(v, (dict, list)):
+            e[k] = _fold_string_macros(v, line, found)
+    if e.get('k') == 'member' and e.get('rec') == 'DBusString' and e.get('field') == 'dummy2':
+        n = _pseudo_call('_dbus_string_get_length', [e['base']], line)
+        found.append(n)
+        return n
+    if e.get('k') == 'sub' and isinstance(e.get('base'), dict) and e['base'].get('k') == 'member' \
+            and e['base'].get('rec') == 'DBusString' and e['base'].get('field') == 'dummy1':
+        n = _pseudo_call('_dbus_string_get_byte', [e['base']['base'], e['idx']], line)
+        n['t'] = 'unsigned char'
+        found.append(n)
+        return n
+    return e
+
+
+def _normalise_blocks(blocks):
+    for b in blocks:
+        out = []
+        for ev in b['events']:
+            found = []
+            if ev['ev'] == 'decl':
+                if ev.get('init') is not None:
+                    ev['init'] = _fold_string_macros(ev['init'], ev['line'], found)
+            elif ev.get('e') is not None:
+                ev['e'] = _fold_string_macros(ev['e'], ev['line'], found)
+            if ev['ev'] in ('sub', 'deref') and isinstance(ev.get('e'), dict) and ev['e'].get('pseudo'):
+                # the macro's own subscript event: replaced by the pseudo call event below
+                for n in found:
+                    out.append({'ev': 'call', 'e': n, 'line': ev['line']})
+                continue
+            for n in found:
+                out.append({'ev': 'call', 'e': n, 'line': ev['line']})
+            out.append(ev)
+        t = b.get('term')
+        if t and t.get('cond') is not None:
+            found = []
+            t['cond'] = _fold_string_macros(t['cond'], t['line'], found)
+            for n in found:
+                out.append({'ev': 'call', 'e': n, 'line': t['line']})
+        b['events'] = out
+
+
 class Function:
     __slots__ = ('name', 'key', 'file', 'line', 'endline', 'static', 'ret', 'params',
                  'noreturn', 'exported', 'blocks', 'entry', 'exit', 'unit', 'variadic',
@@ -205,6 +268,7 @@ class Function:
         self.exported = d.get('exported', False)
         self.variadic = d.get('variadic', False)
         self.unit = unit
+        _normalise_blocks(d.get('blocks', []))
         self.blocks = {b['id']: b for b in d.get('blocks', [])}
         self.entry = d.get('entry')
         self.exit = d.get('exit')
